@@ -390,8 +390,13 @@ def g_ts(r):
 def g_ts_msg(r):
     """Timestamps of TCP/UDP/WebSocket messages; 0.0 is a legal float value, drawn rarely."""
     if r.random() < 0.004:
-        return 0.0
+        return 0.0 if ZERO_MSG_TS[0] else 1.0
     return g_ts(r)
+
+
+# C37 reuses this generator but is not about field round trips: it switches the 0.0 message timestamp
+# (a C36 finding: TCP/UDP/WebSocket message constructors replace a falsy timestamp by "now") off.
+ZERO_MSG_TS = [True]
 
 
 def g_opt(r, g, p=0.3):
